@@ -842,8 +842,11 @@ impl<R: Clone + 'static + crate::MemoryEstimator> GlobalCache<R> {
     /// assert_eq!(cache.get("key2"), None);
     /// ```
     pub fn clear(&self) {
+        // Hold the order lock across both updates (same lock order as insert / eviction),
+        // so that a concurrent insert cannot end up stored but missing from the queue
+        let mut o = self.order.lock();
         self.map.write().clear();
-        self.order.lock().clear();
+        o.clear();
     }
 }
 
